@@ -2,6 +2,7 @@
  * precomputation, kx session keys, seeded key pairs; NDJSON for spec/trace/OracleX25519.tla.
  *   x25519_driver <seed> <nrandom> <out.ndjson>                                                */
 #include "common.h"
+#include "x25519_nearp.h"
 static vrng R;
 static void hexto(const char *h, unsigned char *o) { for (int i = 0; i < 32; i++) { unsigned v; sscanf(h + 2 * i, "%2x", &v); o[i] = (unsigned char) v; } }
 static void rec_sm(const unsigned char *k, const unsigned char *u) {
@@ -70,6 +71,20 @@ int main(int argc, char **argv) {
               memset(qq, 0xcc, 32); (void) crypto_scalarmult(qq, kk_, uu);        /* the verdict is the oracle's, not the library's: only the output bytes steer the search */
               if (!memcmp(qq, uu, 32)) { hit = 1; rec_sm(kk_, uu); }
               else if (v == 255 || (j == 31 && v == 127)) { uu[j] = 9; rec_sm(kk_, uu); } } } }
+    /* results just below p whose limbs (51-bit radix: 5 limbs; 25.5-bit radix: 10 limbs) are all ones except one: the final
+     * "is it >= p" canonicalisation must look at every limb. Candidates u of that shape are multiplied by the twist-stabilising scalar
+     * (result = u for the 1/8 of them that lie in the twist's prime-order subgroup); ALL candidates are recorded - which of them hit
+     * is for the oracle to say, not for the library. */
+    { static const char *kfix = "58083dd261ad91eff952322ec824c682ffffffffffffffffffffffffffffff5f"; unsigned char kk_[32], uu[32]; hexto(kfix, kk_);
+      static const int LB51[6] = { 0, 51, 102, 153, 204, 255 }, LB26[11] = { 0, 26, 51, 77, 102, 128, 153, 179, 204, 230, 255 };
+      int ncand = nrand >= 200 ? 10 : 1;
+      for (int i = 0; NEARP[i]; i++) { hexto(NEARP[i], uu); rec_sm(kk_, uu); }          /* known hits, two per limb (tools/gen_nearp.py) */
+      for (int radix = 0; radix < 2; radix++) { const int *lb = radix ? LB26 : LB51; int nl = radix ? 10 : 5;
+        for (int j = 1; j < nl; j++) for (int c = 0; c < ncand; c++) {
+            memset(uu, 0xff, 32); uu[31] = 0x7f;                                        /* 2^255 - 1 */
+            for (int bit = lb[j]; bit < lb[j + 1]; bit++) if (vrng_below(&R, 2)) uu[bit >> 3] &= (unsigned char) ~(1u << (bit & 7));   /* limb j random */
+            uu[0] = (unsigned char) (0xed + vrng_below(&R, 19));                         /* limb 0 in [2^w - 19, 2^w - 1]: the value is < p iff limb j is not all ones */
+            rec_sm(kk_, uu); } } }
     /* every API built on X25519 reports failure exactly when the shared point is all-zero: the special encodings (low
      * order, non-canonical, either top bit) and random keys as the peer's public key of box (both ciphers; easy, detached,
      * open, precomputation), sealed boxes (both ciphers) and key exchange (either role). rets = return codes in that order. */
